@@ -23,7 +23,7 @@ TRUSTED = [
     "the simulated kernel of the L1.5 scenarios (lowest-free descriptor allocation, a pipe reads EOF when all write ends are closed, "
     "a read drains the pipe) -- fidelity to Linux is an assumption; system-wide routing under the real Supervisor.runforever is the "
     "integrator's simulated kernel (harness/simkernel.py), not this check",
-    "the two-layer shape of the record_output model: tied by correspondence",
+    "the statement-level control flow of the hand-written models against the methods: tied by correspondence (the driver executes recordDirect, proved equal to the two-layer model the theorems use)",
 ]
 ASSUMPTIONS = [
     "a read returning b'' means end of file (options.readfd also maps EAGAIN/EINTR/EBADF to b''; a spurious empty read therefore closes the dispatcher -- outside the theorems)",
@@ -198,6 +198,7 @@ def run(ctx):
         n15 += scenario(ctx, gen_script(ctx.rng))
     for sc in SCRIPTS:
         scenario(ctx, sc)
+    wiring(ctx)
 
 
 def strip_function(ctx):
@@ -494,6 +495,44 @@ def scenario(ctx, script):
     return 1
 
 
+def wiring(ctx):
+    """real make_dispatchers / _prepare_child_fds over the simulated kernel vs the model's wiring"""
+    from supervisor import events
+    from supervisor.dispatchers import POutputDispatcher
+    cases, impls = [], []
+    for redirect in (0, 1):
+        for junk in (0, 2, 5):                       # descriptor numbers already in use shift the allocation
+            events.clear()
+            kernel = Kernel()
+            for _ in range(junk):
+                kernel.alloc('r', Pipe())
+            st = {'children': {}}
+            opt = make_options(kernel, st)
+            dups = []
+            opt.dup2 = lambda a, b: dups.append((a, b))
+            opt.minfds = 3
+            pc = od.make_pconfig(opt, 'w', redirect_stderr=bool(redirect))
+            p = pc.make_process()
+            p.spawn()
+            pp = dict(p.pipes)
+            nums = sorted(v for v in st['last_pipes'].values() if v is not None)
+            p._prepare_child_fds()
+            disp = sorted((fd, d.channel) for fd, d in p.dispatchers.items() if isinstance(d, POutputDispatcher))
+            line = 'disp:%s | stderr:%s | dups:%s' % (','.join('%d:%s' % (fd, 'o' if ch == 'stdout' else 'e') for fd, ch in disp),
+                                                      'none' if pp['stderr'] is None else pp['stderr'],
+                                                      ','.join('%d>%d' % d for d in dups))
+            # the model is told the numbers three os.pipe() calls return, in call order
+            base = junk + 3
+            six = list(range(base, base + 6))
+            cases.append(('case wiring redirect=%d' % redirect, ['make ' + ' '.join(map(str, six))])); impls.append([line])
+            ctx.count('wiring-cases')
+            ctx.case_done(('wiring', redirect, junk), True)
+            if redirect and (len(disp) != 1 or (pp['child_stdout'], 2) not in dups or (pp['child_stdout'], 1) not in dups):
+                ctx.violation('redirect-stderr-wiring', 'redirect_stderr: dispatchers %r, dup2 calls %r' % (disp, dups), {'level': 'wiring', 'redirect': redirect})
+    events.clear()
+    ctx.correspond('wiring', cases, impls)
+
+
 def replay(ctx, data):
     inp = data['input']
     lvl = inp.get('level')
@@ -507,6 +546,8 @@ def replay(ctx, data):
         ctx.correspond('outdisp-replay', cases, impls)
     elif lvl == 'strip':
         strip_function(ctx)
+    elif lvl == 'wiring':
+        wiring(ctx)
     else:
         interleaved(ctx)
 
